@@ -2,7 +2,7 @@
 """Re-run every quick check against every kept refactoring (refactors/*/meta.json is refreshed; first_pass is kept).
 usage: tools/reeval_refactors.py [refactor-id ...]"""
 import glob, json, os, subprocess, sys, time
-PROPS = ["C%02d" % i for i in range(1, 18)]
+PROPS = ["C%02d" % i for i in list(range(1, 18)) + [19]]
 def sh(c):
     r = subprocess.run(c, shell=True, capture_output=True, text=True)
     return r.returncode, r.stdout + r.stderr
